@@ -67,10 +67,10 @@ Qed.
 
 Ltac p_env c := st ltac:(eapply p_env; c; reflexivity).
 Ltac p_append b := st ltac:(eapply p_env; eapply e_append with (bs := b); reflexivity).
-Ltac p_data b r := st ltac:(eapply p_read_data with (bs := b) (rest := r); [reflexivity|reflexivity|discriminate|reflexivity]).
+Ltac p_data b r := st ltac:(eapply p_read_data with (bs := b) (rest := r) (a := 0%nat); [reflexivity|reflexivity|discriminate|reflexivity]).
 Ltac p_giveup := st ltac:(eapply p_read_giveup; reflexivity).
-Ltac p_stat := st ltac:(eapply p_stat_reopen; reflexivity).
-Ltac p_opn := st ltac:(eapply p_open; reflexivity).
+Ltac p_stat := st ltac:(eapply p_stat_reopen with (a := 0%nat); reflexivity).
+Ltac p_opn := st ltac:(eapply p_open with (a := 0%nat); reflexivity).
 
 Definition cAB : bytes := [65; 66].
 Definition cxyz : bytes := [120; 121; 122].
